@@ -183,6 +183,7 @@ void vh_run_case(Ctx &ctx)
         so.nla = rng.chance(0.3);
         so.nlaDense = true;
         so.nlaSystems = so.nla && rng.chance(0.5) ? 2 : 1; // two implicit systems: two objective functions / root finders
+        so.nlaInterleave = so.nlaSystems == 2 && rng.chance(0.6);
         so.scaledUnits = rng.chance(0.5);
         so.exprDepth = rng.range(1, 3);
         m = generateSemModel(rng, so);
